@@ -7,7 +7,7 @@ FULL_SYMS = ["A", "N", "D", "O", "R", "T", "o", "r", "x", "EACUTE", "CJK", "d1",
              "NUL", "BAD", "NBSP", "BANG", "AMP", "PIPE", "AT", "BS", "MINUS", "DOT", "DQ", "SQ", "SL"]
 # one representative per `case` of lex.go
 SUB_SYMS = ["O", "R", "x", "d1", "STAR", "SP", "NL", "LP", "COLON", "HASH", "BS", "MINUS", "DOT", "DQ", "SL", "EACUTE"]
-SUB_SYMS_SMALL = ["O", "R", "x", "d1", "SP", "LP", "HASH", "BS", "MINUS", "DQ", "SL", "CJK"]
+SUB_SYMS_SMALL = ["O", "R", "x", "d1", "SP", "LP", "COLON", "HASH", "BS", "MINUS", "DQ", "SL", "CJK"]
 
 MC_LEXER_CFG = """SPECIFICATION Spec
 CONSTANTS
